@@ -251,3 +251,58 @@ func VerifC12_TwoFaults() {
 	rt.Assert(len(w.Srv.Writes()) == 0, "after-two-faults/not-quiescent")
 	rt.Cover("two-faults")
 }
+
+type verifC12HookDown struct{}
+
+func (verifC12HookDown) Error() string { return "hook unavailable" }
+
+// VerifC12_RollingHookFault: during a rollout the sync hook is asked once per
+// live revision (in parallel). A failed call for ANY of them - the latest
+// parent or an older revision - fails the sync (so that it is retried) before
+// any ControllerRevision or child is written and without a panic; once the hook
+// answers again the rollout completes exactly as in a fault-free run.
+func VerifC12_RollingHookFault() {
+	namespaced := rt.Bool("namespaced")
+	r := verifNewRollWorld(namespaced, verifRollMethod(), []string{"a", "b"}, "1")
+	rt.Assert(r.sync() == nil, "rolling-fault/first-sync-error")
+	r.markHealthy()
+	r.setSpec("2")
+	failFor := rt.Choice("hook-fails-for", 3) // 0 nobody, 1 the old revision's parent, 2 the latest parent
+	down := true
+	inner := r.pc.Cfg.Sync.fn
+	r.pc.Cfg.Sync.fn = func(req *v1.CompositeHookRequest) (*v1.CompositeHookResponse, error) {
+		x, _, _ := unstructured.NestedString(req.Parent.Object, "spec", "x")
+		if down && ((failFor == 1 && x == "1") || (failFor == 2 && x == "2")) {
+			return nil, verifC12HookDown{}
+		}
+		return inner(req)
+	}
+	r.w.Srv.ResetLog()
+	err := r.sync()
+	if failFor != 0 {
+		rt.Cover("rolling-fault/hook-failed")
+		rt.Assert(err != nil, "rolling-fault/hook-error-swallowed")
+		for _, q := range r.w.Srv.Log {
+			if verifIsRevWrite(q) {
+				rt.Assert(false, "rolling-fault/revision-written-although-a-hook-call-failed")
+			}
+			if r.isChildWrite(q) {
+				rt.Assert(false, "rolling-fault/child-written-although-a-hook-call-failed")
+			}
+		}
+	} else {
+		rt.Assert(err == nil, "rolling-fault/fault-free-sync-error")
+	}
+	// the hook recovers: the rollout completes as if nothing had happened
+	down = false
+	for i := 0; i < 5; i++ {
+		r.markHealthy()
+		rt.Assert(r.sync() == nil, "rolling-fault/sync-error-after-recovery")
+	}
+	for _, n := range r.names {
+		v, ok := r.childValue(n)
+		rt.Assert(ok && v == "2", "rolling-fault/rollout-did-not-complete-after-recovery")
+	}
+	rt.Assert(len(r.w.Srv.Revs()) == 1, "rolling-fault/old-revision-not-pruned-after-recovery")
+	rt.Cover("rolling-fault/completed")
+}
